@@ -236,6 +236,11 @@ func c06Tasks(tier string) []mc.Task {
 				}
 				c06Check(c, c06Case{Kind: "row", Seqs: []string{string(r1)}})
 				c06Check(c, c06Case{Kind: "aln", Seqs: []string{string(r1), string(r2)}})
+				if l >= 1024 && off == 5 {
+					for _, procs := range []int{2, 3, 8} {
+						c06Check(c, c06Case{Kind: "aln", Seqs: []string{string(r1), string(r2), string(r1[:l/2]) + string(r2[l/2:])}, Procs: procs})
+					}
+				}
 			}
 			if c.Expired() {
 				return
